@@ -72,7 +72,14 @@ const (
 	// with the histogram bucket bound values.
 	DefaultHistogramBucketTagPrecision = uint(6)
 
-	_emitMetricBatchOverhead    = 19
+	// _emitMetricBatchOverhead is the number of bytes reserved in every packet
+	// for what surrounds the metrics of a batch: the thrift message header of
+	// emitMetricBatchV2 and the argument framing (33 bytes with the binary
+	// protocol; up to 27 with the compact protocol, whose sequence number is a
+	// varint), plus the growth of the compact list header of the metrics list
+	// beyond 14 elements (up to 5 bytes; the size of the batch framing is
+	// measured with an empty list).
+	_emitMetricBatchOverhead    = 33
 	_minMetricBucketIDTagLength = 4
 	_timeResolution             = 100 * time.Millisecond
 )
